@@ -1502,6 +1502,9 @@ func gen(seed uint64, tier string) {
 					g.dupBigCases(out, kind, []int{129, 130, 128, 131}[(bigCalls+kind)%4], tier != "thorough")
 				}
 			}
+			// member counts beyond one byte (an index kept in a uint8 wraps at 256): lines of a multi-line-string, points of
+			// a collection, rings of a polygon, polygons of a multi-polygon (one kind per call), both copies last
+			g.dupBigCases(out, []int{0, 4, 1, 2}[bigCalls%4], []int{257, 258, 260, 300}[bigCalls%4], true)
 			bigCalls++
 			concEvery, concCount = 1499, 0
 		}
